@@ -8,6 +8,7 @@ import Mqtt.Driver.AckQ
 import Mqtt.Driver.Topics
 import Mqtt.Driver.Broker
 import Mqtt.Driver.KeepAlive
+import Mqtt.Driver.Client
 
 namespace Mqtt.Driver
 
@@ -16,6 +17,7 @@ structure DState where
   topics : Topics.St := Topics.St.init
   broker : Broker.St := {}
   ka : KeepAlive.St := {}
+  client : Client.St := {}
 
 def dispatch (st : DState) (line : String) : DState × String × String :=
   match words line with
@@ -31,6 +33,9 @@ def dispatch (st : DState) (line : String) : DState × String × String :=
   | "ka" :: rest =>
     let (a, m, s) := KeepAlive.handle st.ka rest
     ({ st with ka := a }, m, s)
+  | "client" :: rest =>
+    let (a, m, s) := Client.handle st.client rest
+    ({ st with client := a }, m, s)
   | [] => (st, "", "")
   | _ => (st, "bad-core", "bad-core")
 
